@@ -363,6 +363,10 @@ class LtlAstParserVisitor(LtlParserVisitor):
             implicit = True
         else:
             id = ctx.Identifier().getText()
+        id_head = id.split('.')[0]
+        # the name of an assertion may also be the name of an input signal that this or an earlier formula reads
+        # (x = prev(x); an un-named assertion over a signal called out): that signal stays an input
+        used_as_input = any(isinstance(n, Variable) and n.var == id_head for n in self.phi_name_to_node_dict.values())
         self.phi_name_to_node_dict[id] = out
 
         self.var_subspec_dict[id] = out
@@ -398,7 +402,8 @@ class LtlAstParserVisitor(LtlParserVisitor):
 
         self.out_var = id_head
         self.out_var_field = id_tail
-        self.free_vars.discard(id_head)
+        if not used_as_input:
+            self.free_vars.discard(id_head)
         self.specs.append(out)
 
         return
